@@ -4,7 +4,7 @@
 From Coq Require Import List NArith Bool Arith Lia ZArith.
 From Coq Require Import ZifyBool ZifyNat ZifyN.
 Import ListNotations.
-From BioVerif Require Import Model.BGPCodec Model.BGPEncode Proofs.BGPCodecProofs.
+From BioVerif Require Import Model.BGPCodec Model.BGPEncode Spec.BGPRoundtripSpec Proofs.BGPCodecProofs.
 Local Open Scope N_scope.
 Ltac Zify.zify_post_hook ::= Z.div_mod_to_equations.
 
@@ -39,7 +39,6 @@ Lemma rt_getBuf_nil : forall A (k : list N -> M A) bs v,
   (forall rest, runs_to (k (bs ++ rest)) bs v) -> forall rest al, exists al', bind getBuf k (bs ++ rest) al = (Ok v rest, al').
 Proof. intros A k bs v H rest al. unfold bind, getBuf. apply H. Qed.
 
-Definition bytes_ok (l : list N) : Prop := Forall (fun x => x < 256) l.
 
 Lemma byte_id : forall x, x < 256 -> byte x = x.
 Proof. intros. unfold byte. apply N.mod_small. assumption. Qed.
@@ -188,7 +187,6 @@ Proof.
 Qed.
 
 (* ------------------------------------------------------------------ NLRI *)
-From BioVerif Require Import Spec.BGPRoundtripSpec.
 
 Lemma bytesInAddr_bound : forall afi pl, pl <= afiAddrLen afi * 8 -> bytesInAddr pl <= afiAddrLen afi.
 Proof. intros afi pl H. unfold bytesInAddr. unfold afiAddrLen in *. destruct (afi =? 1); [lia|]. destruct (afi =? 2); lia. Qed.
@@ -459,7 +457,6 @@ Qed.
 
 Definition largeBytes (l : list (N * N * N)) : list N :=
   flat_map (fun c => u32be (fst (fst c)) ++ u32be (snd (fst c)) ++ u32be (snd c)) l.
-Definition large_ok (c : N * N * N) : Prop := u32 (fst (fst c)) /\ u32 (snd (fst c)) /\ u32 (snd c).
 
 Lemma len_largeBytes : forall l, len (largeBytes l) = 12 * len l.
 Proof.
@@ -484,9 +481,6 @@ Proof.
   eapply rt_bind_r; [exact IH|]. apply rt_ret.
 Qed.
 
-Definition known_type (t : N) : bool :=
-  (t =? 1) || (t =? 2) || (t =? 3) || (t =? 4) || (t =? 5) || (t =? 6) || (t =? 7) || (t =? 8) || (t =? 9) ||
-  (t =? 10) || (t =? 14) || (t =? 15) || (t =? 18) || (t =? 32).
 
 Lemma rt_val_unknown : forall fuel o ty b, known_type ty = false -> bytes_ok b ->
   runs_to (decodeAttrValue fuel o ty (len b)) b (AVUnknown b).
@@ -497,9 +491,6 @@ Proof.
 Qed.
 
 (* AS_PATH *)
-Definition asn_ok (as4 : bool) (a : N) : Prop := if as4 then u32 a else a < 65536.
-Definition seg_ok (as4 : bool) (s : N * list N) : Prop :=
-  (fst s = 1 \/ fst s = 2) /\ 1 <= len (snd s) <= 255 /\ Forall (asn_ok as4) (snd s).
 Definition asnBytes (as4 : bool) (l : list N) : list N :=
   if as4 then flat_map u32be l else flat_map (fun a => u16be (a mod 65536)) l.
 Definition segBytes (as4 : bool) (s : N * list N) : list N := [fst s; len (snd s)] ++ asnBytes as4 (snd s).
@@ -553,30 +544,422 @@ Proof.
     apply IH. lia.
 Qed.
 
-Definition nonempty_seg (s : N * list N) : bool := negb (len (snd s) =? 0).
 
 Lemma encodeSegments_spec : forall as4 segs,
   Forall (seg_ok as4) (filter nonempty_seg segs) ->
-  len (flat_map (segBytes as4) (filter nonempty_seg segs)) < 65536 ->
   encodeSegments as4 segs = (flat_map (segBytes as4) (filter nonempty_seg segs),
-                             len (flat_map (segBytes as4) (filter nonempty_seg segs))).
+                             len (flat_map (segBytes as4) (filter nonempty_seg segs)) mod 65536).
 Proof.
-  intros as4 segs. induction segs as [|[ty asns] segs IH]; intros Hok Hlen; [reflexivity|].
+  intros as4 segs. induction segs as [|[ty asns] segs IH]; intros Hok; [reflexivity|].
   assert (Hne : nonempty_seg (ty, asns) = negb (len asns =? 0)) by reflexivity.
   cbn [encodeSegments]. cbn [filter] in *. rewrite Hne in *.
   destruct (len asns =? 0) eqn:E0; cbn [negb] in *.
   - rewrite IH by assumption. reflexivity.
   - inversion Hok as [|x l (Hty & Hc & Ha) Hrest]; subst. cbn [fst snd] in *.
-    cbn [flat_map] in Hlen. rewrite len_app in Hlen.
-    rewrite IH by (auto; lia). cbn [flat_map].
+    rewrite IH by auto. cbn [flat_map].
     assert (Ety : ty mod 256 = ty) by (apply N.mod_small; lia).
     assert (Ecnt : len asns mod 256 = len asns) by (apply N.mod_small; lia).
     rewrite Ety, Ecnt. apply pair_equal_spec. split.
     + unfold segBytes at 2. cbn [fst snd]. unfold asnBytes. destruct as4; rewrite <- app_assoc; reflexivity.
     + rewrite len_app. unfold segBytes at 2. cbn [fst snd]. rewrite len_app.
-      unfold segBytes at 1 in Hlen. cbn [fst snd] in Hlen. rewrite len_app in Hlen.
-      pose proof (len_asnBytes as4 asns) as Hab. rewrite Hab in *.
-      change (len [ty; len asns]) with 2 in *.
+      pose proof (len_asnBytes as4 asns) as Hab. rewrite Hab.
+      change (len [ty; len asns]) with 2.
       rewrite (N.mod_small (len asns) 65536) by lia.
-      destruct as4; rewrite !N.mod_small; lia.
+      set (x := len (flat_map (segBytes as4) (filter nonempty_seg segs))).
+      destruct as4; lia.
+Qed.
+
+(* ------------------------------------------------------------------ MP_REACH_NLRI / MP_UNREACH_NLRI *)
+
+Ltac step_rt H :=
+  unfold bind at 1;
+  match goal with
+  | |- context [?m (?bs ++ ?rest) ?al] =>
+    let al1 := fresh "al" in let E := fresh "E" in
+    destruct (H rest al) as (al1 & E); rewrite E; clear E
+  end.
+
+Lemma rt_subparse : forall A (inner : M A) body v,
+  bytes_ok body ->
+  (forall al, exists r al', inner body al = (Ok v r, al')) ->
+  runs_to (subparse (len body) inner) body v.
+Proof.
+  intros A inner body v Hb Hin rest al. unfold subparse.
+  unfold bind at 1. unfold alloc.
+  unfold bind at 1. destruct (rt_bufReadFull body Hb rest (al + len body)) as (al1 & E1). rewrite E1.
+  unfold runSub. destruct (Hin al1) as (r & al2 & E2). rewrite E2. eauto.
+Qed.
+
+
+Lemma nexthop_len : forall nh, nexthop_ok nh -> len (ipBytes nh) = 4 \/ len (ipBytes nh) = 16.
+Proof. intros nh H. eapply ipFromBytes_some; eauto. Qed.
+
+Definition mpReachBody (ap : bool) (afi safi : N) (nh : ip) (nl : list nlri) : list N :=
+  u16be afi ++ [safi] ++ [len (ipBytes nh)] ++ ipBytes nh ++ [0] ++ nlrisBytes ap nl.
+
+Lemma run_MPReachBody : forall fuel o afi nh nl,
+  afi < 65536 -> nexthop_ok nh ->
+  Forall (wf_nlri afi (addPathFor o afi 1)) nl ->
+  len (nlrisBytes (addPathFor o afi 1) nl) < 65536 ->
+  (length (nlrisBytes (addPathFor o afi 1) nl) < fuel)%nat ->
+  forall al, exists r al',
+    deserializeMPReachBody fuel o (mpReachBody (addPathFor o afi 1) afi 1 nh nl) al = (Ok (AVMPReach afi 1 nh nl) r, al').
+Proof.
+  intros fuel o afi nh nl Hafi Hnh Hwf Hlen Hf al.
+  set (ap := addPathFor o afi 1) in *. set (nb := nlrisBytes ap nl) in *.
+  pose proof (nexthop_len _ Hnh) as Hnl. set (nhb := ipBytes nh) in *.
+  unfold deserializeMPReachBody, mpReachBody. fold nhb. fold nb.
+  unfold bind at 1. destruct (rt_readU16 afi Hafi ([1] ++ [len nhb] ++ nhb ++ [0] ++ nb) al) as (al1 & E1).
+  rewrite E1. clear E1.
+  unfold bind at 1. destruct (rt_readByte 1 ltac:(lia) ([len nhb] ++ nhb ++ [0] ++ nb) al1) as (al2 & E2).
+  rewrite E2. clear E2.
+  unfold bind at 1. destruct (rt_readByte (len nhb) ltac:(lia) (nhb ++ [0] ++ nb) al2) as (al3 & E3).
+  rewrite E3. clear E3.
+  unfold bind at 1. unfold getBuf. cbv zeta.
+  set (variable := nhb ++ [0] ++ nb).
+  assert (Hlv : len variable = len nhb + 1 + len nb) by (subst variable; rewrite !len_app; unfold len; cbn [length]; lia).
+  replace (negb (len variable <? len nhb)) with true by lia.
+  unfold bind at 1. unfold guard, ret.
+  replace (len nhb =? 32) with false by lia.
+  replace (len variable <? len nhb) with false by lia.
+  assert (Hfirst : map byte (firstn (N.to_nat (len nhb)) variable) = nhb).
+  { subst variable. rewrite to_nat_len, firstn_app_len. apply map_byte_id. apply ipBytes_ok. }
+  rewrite Hfirst. unfold nexthop_ok in Hnh. fold nhb in Hnh. rewrite Hnh.
+  replace (len variable - len nhb =? 0) with false by lia.
+  replace ((1 + len nhb) mod 256) with (1 + len nhb) by (symmetry; apply N.mod_small; lia).
+  replace (len variable <? 1 + len nhb) with false by lia.
+  unfold bind at 1. unfold dropBuf.
+  assert (Hskip : skipn (N.to_nat (1 + len nhb)) variable = nb).
+  { subst variable. replace (N.to_nat (1 + len nhb)) with (length (nhb ++ [0])) by (rewrite app_length; unfold len; cbn [length]; lia).
+    rewrite app_assoc. apply skipn_app_len. }
+  rewrite Hskip.
+  unfold bind at 1. unfold getBuf.
+  rewrite (N.mod_small (len nb)) by exact Hlen.
+  unfold bind.
+  pose proof (rt_decodeNLRIs afi ap nl Hwf fuel 0 [] Hf [] al3) as (al4 & E4).
+  rewrite N.add_0_l in E4. fold nb in E4. rewrite app_nil_r in E4. fold ap. rewrite E4. cbn [rev app]. unfold ret. eauto.
+Qed.
+
+Lemma u16be_ok : forall v, bytes_ok (u16be v).
+Proof. intros. unfold u16be, bytes_ok. repeat constructor; apply N.mod_lt; lia. Qed.
+
+Lemma nlriBytes_ok : forall afi ap n, wf_nlri afi ap n -> bytes_ok (nlriBytes ap n).
+Proof.
+  intros afi ap n Hwf. pose proof (wf_nlri_plen _ _ _ Hwf) as Hpl. unfold nlriBytes.
+  apply Forall_app. split; [destruct ap; [apply bytes32_ok|constructor]|].
+  apply Forall_app. split; [repeat constructor; lia|]. apply firstn_ok. apply ipBytes_ok.
+Qed.
+
+Lemma nlrisBytes_ok : forall afi ap l, Forall (wf_nlri afi ap) l -> bytes_ok (nlrisBytes ap l).
+Proof.
+  intros afi ap l H. induction H as [|n l Hn Hl IH]; [constructor|].
+  cbn [nlrisBytes flat_map]. apply Forall_app. split; [eapply nlriBytes_ok; eauto|exact IH].
+Qed.
+
+Lemma rt_val_mpreach : forall fuel o afi nh nl,
+  afi < 65536 -> nexthop_ok nh ->
+  Forall (wf_nlri afi (addPathFor o afi 1)) nl ->
+  len (nlrisBytes (addPathFor o afi 1) nl) < 65536 ->
+  (length (nlrisBytes (addPathFor o afi 1) nl) < fuel)%nat ->
+  runs_to (decodeAttrValue fuel o 14 (len (mpReachBody (addPathFor o afi 1) afi 1 nh nl)))
+          (mpReachBody (addPathFor o afi 1) afi 1 nh nl) (AVMPReach afi 1 nh nl).
+Proof.
+  intros fuel o afi nh nl Hafi Hnh Hwf Hlen Hf. unfold decodeAttrValue. cbn [N.eqb Pos.eqb].
+  apply rt_subparse.
+  - unfold mpReachBody. pose proof (nexthop_len _ Hnh) as Hl.
+    apply Forall_app. split; [apply u16be_ok|]. apply Forall_app. split; [repeat constructor; lia|].
+    apply Forall_app. split; [repeat constructor; lia|]. apply Forall_app. split; [apply ipBytes_ok|].
+    apply Forall_app. split; [repeat constructor; lia|]. eapply nlrisBytes_ok; eauto.
+  - intros al. unfold deserializeMPReach.
+    assert (Hgt : 4 <? len (mpReachBody (addPathFor o afi 1) afi 1 nh nl) = true).
+    { unfold mpReachBody. rewrite !len_app. pose proof (nexthop_len _ Hnh) as Hl.
+      change (len (u16be afi)) with 2. change (len [1]) with 1. change (len [len (ipBytes nh)]) with 1. change (len [0]) with 1. lia. }
+    unfold bind at 1. rewrite Hgt. unfold guard, ret. unfold bind at 1. unfold alloc.
+    apply run_MPReachBody; assumption.
+Qed.
+
+Definition mpUnreachBody (ap : bool) (afi safi : N) (nl : list nlri) : list N :=
+  u16be afi ++ [safi] ++ nlrisBytes ap nl.
+
+Lemma rt_val_mpunreach : forall fuel o afi nl,
+  afi < 65536 ->
+  Forall (wf_nlri afi (addPathFor o afi 1)) nl ->
+  len (nlrisBytes (addPathFor o afi 1) nl) < 65536 ->
+  (length (nlrisBytes (addPathFor o afi 1) nl) < fuel)%nat ->
+  runs_to (decodeAttrValue fuel o 15 (len (mpUnreachBody (addPathFor o afi 1) afi 1 nl)))
+          (mpUnreachBody (addPathFor o afi 1) afi 1 nl) (AVMPUnreach afi 1 nl).
+Proof.
+  intros fuel o afi nl Hafi Hwf Hlen Hf. unfold decodeAttrValue. cbn [N.eqb Pos.eqb].
+  set (ap := addPathFor o afi 1) in *. set (nb := nlrisBytes ap nl) in *.
+  apply rt_subparse.
+  - unfold mpUnreachBody. apply Forall_app. split; [apply u16be_ok|]. apply Forall_app.
+    split; [repeat constructor; lia|]. eapply nlrisBytes_ok; eauto.
+  - intros al. unfold deserializeMPUnreach, mpUnreachBody. fold nb.
+    assert (Hge : negb (len (u16be afi ++ [1] ++ nb) <? 3) = true).
+    { rewrite !len_app. change (len (u16be afi)) with 2. change (len [1]) with 1. lia. }
+    unfold bind at 1. rewrite Hge. unfold guard, ret. unfold bind at 1. unfold alloc.
+    unfold deserializeMPUnreachBody.
+    unfold bind at 1. destruct (rt_readU16 afi Hafi ([1] ++ nb) (al + (len (u16be afi ++ [1] ++ nb) - 3))) as (al1 & E1).
+    rewrite E1. clear E1.
+    unfold bind at 1. destruct (rt_readByte 1 ltac:(lia) nb al1) as (al2 & E2). rewrite E2. clear E2.
+    unfold bind at 1. unfold getBuf.
+    destruct (len nb =? 0) eqn:E0.
+    + assert (nl = []).
+      { destruct nl as [|n l]; [reflexivity|]. exfalso. subst nb. cbn [nlrisBytes flat_map] in E0.
+        pose proof (nlriBytes_nonempty ap n). rewrite len_app in E0. unfold len in E0. lia. }
+      subst nl. unfold ret. eauto.
+    + rewrite (N.mod_small (len nb)) by exact Hlen. unfold bind.
+      pose proof (rt_decodeNLRIs afi ap nl Hwf fuel 0 [] Hf [] al2) as (al4 & E4).
+      rewrite N.add_0_l in E4. fold nb in E4. rewrite app_nil_r in E4. fold ap. rewrite E4.
+      cbn [rev app]. unfold ret. eauto.
+Qed.
+
+(* ------------------------------------------------------------------ one attribute on the wire *)
+
+Lemma rt_attr_wire : forall fuel o flags ty ext vb v,
+  flags < 256 -> ty < 256 -> N.testbit flags 4 = ext ->
+  len vb < (if ext then 65536 else 256) -> len vb <= 4096 ->
+  runs_to (decodeAttrValue fuel o ty (len vb)) vb v ->
+  runs_to (decodePathAttr fuel o) ([flags; ty] ++ lenBytes ext (len vb) ++ vb)
+    (mkAttr (N.testbit flags 7) (N.testbit flags 6) (N.testbit flags 5) ext ty (len vb) v,
+     len ([flags; ty] ++ lenBytes ext (len vb) ++ vb)).
+Proof.
+  intros fuel o flags ty ext vb v Hf Ht He HL H4 Hv. subst ext.
+  replace (len ([flags; ty] ++ lenBytes (N.testbit flags 4) (len vb) ++ vb))
+    with ((2 + (if N.testbit flags 4 then 2 else 1) + len vb) mod 65536).
+  - apply rt_decodePathAttr; assumption.
+  - rewrite !len_app. change (len [flags; ty]) with 2. unfold lenBytes.
+    destruct (N.testbit flags 4); [change (len [len vb / 256 mod 256; len vb mod 256]) with 2|change (len [len vb mod 256]) with 1];
+      rewrite N.mod_small; lia.
+Qed.
+
+Lemma app_length_lt : forall (a b : list N) n, (length (a ++ b) < n)%nat -> (length b < n)%nat.
+Proof. intros a b n H. rewrite app_length in H. lia. Qed.
+
+Definition emitted (o : eopts) (a a' : attr) (bs : list N) (fuel : nat) : Prop :=
+  runs_to (decodePathAttr fuel (doptsOf o)) bs (a', len bs) /\ same_attr a a' /\ (1 <= length bs)%nat.
+
+Ltac type_false :=
+  repeat match goal with H : (?t =? ?c) = false |- _ => rewrite H in * end.
+
+Lemma same_known : forall a a', known_type (a_type a) = true ->
+  a_type a' = a_type a -> a_val a' = norm_val (a_val a) -> same_attr a a'.
+Proof. intros a a' Hk Ht Hv. split; [exact Ht|]. split; [exact Hv|]. intros Hn. rewrite Hk in Hn. discriminate. Qed.
+
+Lemma len_u32be : forall v, len (u32be v) = 4.
+Proof. reflexivity. Qed.
+Lemma len_u16be : forall v, len (u16be v) = 2.
+Proof. reflexivity. Qed.
+Ltac lenfix := cbv iota; repeat first [rewrite len_bytes32 | rewrite len_u32be | rewrite len_u16be | rewrite len_app | rewrite len_nil];
+               try (unfold len; cbn [length]); lia.
+
+Ltac lens_in H := repeat first [rewrite len_cons in H | rewrite len_app in H].
+Ltac lengths_in H := repeat first [rewrite app_length in H | progress cbn [length] in H].
+
+Lemma attr_roundtrip : forall fuel o a bs k,
+  wf_attr o a -> encodeAttr o a = Some (bs, k) -> len bs <= 4096 -> (length bs < fuel)%nat ->
+  bs = [] \/ exists a', emitted o a a' bs fuel.
+Proof.
+  intros fuel o a bs k Hwf E H4 Hf. unfold wf_attr in Hwf. unfold encodeAttr in E.
+  assert (Hkt : forall c, (a_type a =? c) = true -> known_type c = true -> known_type (a_type a) = true).
+  { intros c Hc Hk. replace (a_type a) with c by lia. exact Hk. }
+  destruct (a_type a =? 1) eqn:T1.
+  { destruct Hwf as (v & Hv & Hb). rewrite Hv in E. injection E as Hbs Hk; subst bs k. right.
+    rewrite (N.mod_small v) by lia.
+    eexists. split; [|split].
+    - match goal with |- runs_to _ ?bb _ => replace bb with ([64; 1] ++ lenBytes false (len [v]) ++ [v]) by reflexivity end.
+      apply rt_attr_wire; try reflexivity; try lia; try lenfix. apply rt_val_origin. exact Hb.
+    - apply same_known; [eapply Hkt; eauto|cbn [a_type]; lia|cbn [a_val]; rewrite Hv; reflexivity].
+    - cbn. lia. }
+  destruct (a_type a =? 2) eqn:T2.
+  { destruct Hwf as (segs & Hv & Hs). rewrite Hv in E.
+    rewrite (encodeSegments_spec _ _ Hs) in E.
+    set (sb := flat_map (segBytes (use32 o)) (filter nonempty_seg segs)) in *.
+    injection E as Hbs Hk; subst bs k. right.
+    assert (Hbl : len sb <= 4096) by (lens_in H4; lia).
+    rewrite (N.mod_small (len sb)) in * by lia.
+    eexists. split; [|split].
+    - replace [if 255 <? len sb then 80 else 64; 2] with [(if 255 <? len sb then 80 else 64); 2] by reflexivity.
+      apply rt_attr_wire.
+      + destruct (255 <? len sb); lia.
+      + lia.
+      + destruct (255 <? len sb); reflexivity.
+      + destruct (255 <? len sb) eqn:El; lia.
+      + exact Hbl.
+      + unfold decodeAttrValue. cbn [N.eqb Pos.eqb].
+        replace (len sb) with (0 + len sb) by lia.
+        replace (if asn32 (doptsOf o) then 4 else 2) with (if use32 o then 4 else 2) by reflexivity.
+        replace (AVASPath (filter nonempty_seg segs)) with (AVASPath (rev [] ++ filter nonempty_seg segs)) by reflexivity.
+        apply rt_decodeASPath; [exact Hs|]. lengths_in Hf. fold sb. lia.
+    - apply same_known; [eapply Hkt; eauto|cbn [a_type]; lia|cbn [a_val]; rewrite Hv; reflexivity].
+    - cbn. lia. }
+  destruct (a_type a =? 3) eqn:T3.
+  { destruct Hwf as (v & Hv & Hb). rewrite Hv in E. injection E as Hbs Hk; subst bs k. right.
+    eexists. split; [|split].
+    - match goal with |- runs_to _ ?bb _ => replace bb with ([64; 3] ++ lenBytes false (len (bytes32 v)) ++ bytes32 v) by reflexivity end.
+      apply rt_attr_wire; try reflexivity; try lia; try lenfix. apply rt_val_nexthop. exact Hb.
+    - apply same_known; [eapply Hkt; eauto|cbn [a_type]; lia|cbn [a_val]; rewrite Hv; reflexivity].
+    - cbn. lia. }
+  destruct (a_type a =? 4) eqn:T4.
+  { cbn [orb] in Hwf. destruct Hwf as (v & Hv & Hb). rewrite Hv in E. injection E as Hbs Hk; subst bs k. right.
+    eexists. split; [|split].
+    - match goal with |- runs_to _ ?bb _ => replace bb with ([128; 4] ++ lenBytes false (len (u32be v)) ++ u32be v) by reflexivity end.
+      apply rt_attr_wire; try reflexivity; try lia; try lenfix. apply rt_val_med. exact Hb.
+    - apply same_known; [eapply Hkt; eauto|cbn [a_type]; lia|cbn [a_val]; rewrite Hv; reflexivity].
+    - cbn. lia. }
+  destruct (a_type a =? 5) eqn:T5.
+  { cbn [orb] in Hwf. destruct Hwf as (v & Hv & Hb). rewrite Hv in E. injection E as Hbs Hk; subst bs k. right.
+    eexists. split; [|split].
+    - match goal with |- runs_to _ ?bb _ => replace bb with ([64; 5] ++ lenBytes false (len (u32be v)) ++ u32be v) by reflexivity end.
+      apply rt_attr_wire; try reflexivity; try lia; try lenfix. apply rt_val_localpref. exact Hb.
+    - apply same_known; [eapply Hkt; eauto|cbn [a_type]; lia|cbn [a_val]; rewrite Hv; reflexivity].
+    - cbn. lia. }
+  destruct (a_type a =? 6) eqn:T6.
+  { destruct (a_type a =? 9) eqn:T9; [lia|]. cbn [orb] in Hwf.
+    injection E as Hbs Hk; subst bs k. right.
+    eexists. split; [|split].
+    - match goal with |- runs_to _ ?bb _ => replace bb with ([64; 6] ++ lenBytes false (len (@nil N)) ++ []) by reflexivity end.
+      apply rt_attr_wire; try reflexivity; try lia; try lenfix. apply rt_val_atomic.
+    - apply same_known; [eapply Hkt; eauto|cbn [a_type]; lia|cbn [a_val]; rewrite Hwf; reflexivity].
+    - cbn. lia. }
+  destruct (a_type a =? 7) eqn:T7.
+  { destruct (a_type a =? 9) eqn:T9; [lia|]. cbn [orb] in Hwf.
+    destruct Hwf as (asn & ad & Hv & Ha & Had). rewrite Hv in E. rewrite (N.mod_small asn) in E by lia.
+    injection E as Hbs Hk; subst bs k. right.
+    eexists. split; [|split].
+    - match goal with |- runs_to _ ?bb _ => replace bb with ([192; 7] ++ lenBytes false (len (u16be asn ++ u32be ad)) ++ u16be asn ++ u32be ad) by reflexivity end.
+      apply rt_attr_wire; try reflexivity; try lia; try lenfix. apply rt_val_aggregator; assumption.
+    - apply same_known; [eapply Hkt; eauto|cbn [a_type]; lia|cbn [a_val]; rewrite Hv; reflexivity].
+    - cbn. lia. }
+  destruct (a_type a =? 8) eqn:T8.
+  { destruct (a_type a =? 9) eqn:T9; [lia|]. cbn [orb] in Hwf.
+    destruct Hwf as (l & Hv & Hl). rewrite Hv in E.
+    destruct l as [|x l]; [inversion E; left; reflexivity|].
+    remember (x :: l) as cl eqn:Hcl. injection E as Hbs Hk; subst bs k. right.
+    assert (Hvl : len (encodeU32s cl) <= 4096) by (lens_in H4; lia).
+    pose proof (len_encodeU32s cl) as Hel.
+    rewrite (N.mod_small (4 * len cl)) in * by lia. rewrite <- Hel in *.
+    eexists. split; [|split].
+    - apply rt_attr_wire.
+      + destruct (255 <? len (encodeU32s cl)); lia.
+      + lia.
+      + destruct (255 <? len (encodeU32s cl)); reflexivity.
+      + destruct (255 <? len (encodeU32s cl)) eqn:El; lia.
+      + exact Hvl.
+      + apply rt_val_comms. exact Hl.
+    - apply same_known; [eapply Hkt; eauto|cbn [a_type]; lia|cbn [a_val]; rewrite Hv; reflexivity].
+    - cbn. lia. }
+  destruct (a_type a =? 32) eqn:T32.
+  { destruct (a_type a =? 9) eqn:T9; [lia|]. cbn [orb] in Hwf.
+    destruct Hwf as (l & Hv & Hl). rewrite Hv in E.
+    destruct l as [|x l]; [inversion E; left; reflexivity|].
+    remember (x :: l) as cl eqn:Hcl. fold (largeBytes cl) in E. injection E as Hbs Hk; subst bs k. right.
+    assert (Hvl : len (largeBytes cl) <= 4096) by (lens_in H4; lia).
+    pose proof (len_largeBytes cl) as Hel.
+    rewrite (N.mod_small (12 * len cl)) in * by lia. rewrite <- Hel in *.
+    eexists. split; [|split].
+    - apply rt_attr_wire.
+      + destruct (255 <? len (largeBytes cl)); lia.
+      + lia.
+      + destruct (255 <? len (largeBytes cl)); reflexivity.
+      + destruct (255 <? len (largeBytes cl)) eqn:El; lia.
+      + exact Hvl.
+      + apply rt_val_large. exact Hl.
+    - apply same_known; [eapply Hkt; eauto|cbn [a_type]; lia|cbn [a_val]; rewrite Hv; reflexivity].
+    - cbn. lia. }
+  destruct (a_type a =? 14) eqn:T14.
+  { destruct (a_type a =? 9) eqn:T9; [lia|]. destruct (a_type a =? 10) eqn:T10; [lia|]. cbn [orb] in Hwf.
+    destruct Hwf as (afi & nh & nl & Hv & Hafi & Hnh & Hnl). rewrite Hv in E.
+    assert (Hap : addPathFor (doptsOf o) afi 1 = useAddPath o).
+    { unfold addPathFor, doptsOf. cbn [addPath4 addPath6]. destruct Hafi; subst afi; reflexivity. }
+    rewrite Hap in Hnl.
+    change (1 mod 256) with 1 in E.
+    rewrite (encodeNLRIs_wf afi (useAddPath o) 1 nl Hnl eq_refl) in E.
+    rewrite (N.mod_small afi) in E by lia. change (1 mod 256) with 1 in E.
+    pose proof (nexthop_len _ Hnh) as Hnhl.
+    rewrite (N.mod_small (len (ipBytes nh))) in E by lia.
+    set (body := u16be afi ++ [1; len (ipBytes nh)] ++ ipBytes nh ++ [0] ++ nlrisBytes (useAddPath o) nl) in *.
+    injection E as Hbs Hk; subst bs k. right.
+    assert (Hbl : len body <= 4096) by (lens_in H4; lia).
+    assert (Hbody : body = mpReachBody (addPathFor (doptsOf o) afi 1) afi 1 nh nl) by (rewrite Hap; reflexivity).
+    assert (Hnb : (length (nlrisBytes (useAddPath o) nl) < fuel)%nat).
+    { subst body. lengths_in Hf. lia. }
+    assert (Hnbl : len (nlrisBytes (useAddPath o) nl) < 65536).
+    { subst body. lens_in Hbl. lia. }
+    eexists. split; [|split].
+    - apply rt_attr_wire.
+      + destruct (a_trans a), ((255 <? len body) || a_ext a); cbn; lia.
+      + lia.
+      + destruct (a_trans a), ((255 <? len body) || a_ext a); reflexivity.
+      + destruct ((255 <? len body) || a_ext a) eqn:El; [lia|]. apply orb_false_iff in El. lia.
+      + exact Hbl.
+      + rewrite Hbody. apply rt_val_mpreach; try rewrite Hap; try assumption; lia.
+    - apply same_known; [eapply Hkt; eauto|cbn [a_type]; lia|cbn [a_val]; rewrite Hv; reflexivity].
+    - cbn. lia. }
+  destruct (a_type a =? 15) eqn:T15.
+  { destruct (a_type a =? 9) eqn:T9; [lia|]. destruct (a_type a =? 10) eqn:T10; [lia|]. cbn [orb] in Hwf.
+    destruct Hwf as (afi & nl & Hv & Hafi & Hnl). rewrite Hv in E.
+    assert (Hap : addPathFor (doptsOf o) afi 1 = useAddPath o).
+    { unfold addPathFor, doptsOf. cbn [addPath4 addPath6]. destruct Hafi; subst afi; reflexivity. }
+    rewrite Hap in Hnl.
+    change (1 mod 256) with 1 in E.
+    rewrite (encodeNLRIs_wf afi (useAddPath o) 1 nl Hnl eq_refl) in E.
+    rewrite (N.mod_small afi) in E by lia.
+    set (body := u16be afi ++ [1] ++ nlrisBytes (useAddPath o) nl) in *.
+    injection E as Hbs Hk; subst bs k. right.
+    assert (Hbl : len body <= 4096) by (lens_in H4; lia).
+    assert (Hbody : body = mpUnreachBody (addPathFor (doptsOf o) afi 1) afi 1 nl) by (rewrite Hap; reflexivity).
+    assert (Hnb : (length (nlrisBytes (useAddPath o) nl) < fuel)%nat).
+    { subst body. lengths_in Hf. lia. }
+    assert (Hnbl : len (nlrisBytes (useAddPath o) nl) < 65536).
+    { subst body. lens_in Hbl. lia. }
+    eexists. split; [|split].
+    - apply rt_attr_wire.
+      + destruct (a_trans a), ((255 <? len body) || a_ext a); cbn; lia.
+      + lia.
+      + destruct (a_trans a), ((255 <? len body) || a_ext a); reflexivity.
+      + destruct ((255 <? len body) || a_ext a) eqn:El; [lia|]. apply orb_false_iff in El. lia.
+      + exact Hbl.
+      + rewrite Hbody. apply rt_val_mpunreach; try rewrite Hap; try assumption; lia.
+    - apply same_known; [eapply Hkt; eauto|cbn [a_type]; lia|cbn [a_val]; rewrite Hv; reflexivity].
+    - cbn. lia. }
+  destruct (a_type a =? 9) eqn:T9.
+  { cbn [orb] in Hwf. destruct Hwf as (v & Hv & Hb). rewrite Hv in E. injection E as Hbs Hk; subst bs k. right.
+    eexists. split; [|split].
+    - match goal with |- runs_to _ ?bb _ => replace bb with ([128; 9] ++ lenBytes false (len (u32be v)) ++ u32be v) by reflexivity end.
+      apply rt_attr_wire; try reflexivity; try lia; try lenfix. apply rt_val_originator. exact Hb.
+    - apply same_known; [eapply Hkt; eauto|cbn [a_type]; lia|cbn [a_val]; rewrite Hv; reflexivity].
+    - cbn. lia. }
+  cbn [orb] in Hwf.
+  destruct (a_type a =? 10) eqn:T10.
+  { destruct Hwf as (l & Hv & Hl). rewrite Hv in E.
+    destruct l as [|x l]; [inversion E; left; reflexivity|].
+    remember (x :: l) as cl eqn:Hcl. injection E as Hbs Hk; subst bs k. right.
+    assert (Hvl : len (encodeU32s cl) <= 4096) by (lens_in H4; lia).
+    pose proof (len_encodeU32s cl) as Hel.
+    rewrite (N.mod_small (4 * len cl)) in * by lia. rewrite <- Hel in *.
+    eexists. split; [|split].
+    - apply rt_attr_wire.
+      + destruct (255 <? len (encodeU32s cl)); lia.
+      + lia.
+      + destruct (255 <? len (encodeU32s cl)); reflexivity.
+      + destruct (255 <? len (encodeU32s cl)) eqn:El; lia.
+      + exact Hvl.
+      + apply rt_val_cluster. exact Hl.
+    - apply same_known; [eapply Hkt; eauto|cbn [a_type]; lia|cbn [a_val]; rewrite Hv; reflexivity].
+    - cbn. lia. }
+  destruct Hwf as (Hkn & Ht & b & Hv & Hb). rewrite Hv in E. injection E as Hbs Hk; subst bs k. right.
+  rewrite (N.mod_small (a_type a)) in * by exact Ht.
+  assert (Hbl : len b <= 4096) by (lens_in H4; lia).
+  eexists. split; [|split].
+  - apply rt_attr_wire.
+    + destruct (a_opt a), (a_part a), ((255 <? len b) || a_ext a); cbn; lia.
+    + exact Ht.
+    + destruct (a_opt a), (a_part a), ((255 <? len b) || a_ext a); reflexivity.
+    + destruct ((255 <? len b) || a_ext a) eqn:El; [lia|]. apply orb_false_iff in El. lia.
+    + exact Hbl.
+    + apply rt_val_unknown; assumption.
+  - split; [reflexivity|]. split; [cbn [a_val]; rewrite Hv; reflexivity|]. intros _. cbn [a_opt a_trans a_part].
+    destruct (a_opt a), (a_part a), ((255 <? len b) || a_ext a); repeat split; reflexivity.
+  - cbn. lia.
 Qed.
